@@ -134,7 +134,7 @@ def eval_dyad_cut(a, b, backend):
     r = bknp.array_split(b, a)
     if len(b) == 0 and len(a) > 0:
         r = r[1:]
-    return bknp.asarray(["".join(x) for x in r]) if j else backend.kg_asarray(r)
+    return bknp.asarray(["".join(x) for x in r], dtype=object) if j else backend.kg_asarray(r)
 
 
 def eval_dyad_at_index(klong, a, b):
